@@ -29,7 +29,7 @@ FUNCTIONS = [
     "tasks.py:ExprTask.run", "refs.py:ItemRef._set_value", "refs.py:AttrRef._set_value", "sorting.py:toposort",
 ]
 ASSUMPTIONS = c01.ASSUMPTIONS[:3] + [
-    "faults are container-write failures (dict __setitem__, object __setattr__, list __setitem__ raising InjectedFault); a task whose evaluation raises behaves the same way (ExprTask.run evaluates then writes)",
+    "faults are container-write failures (dict __setitem__, object __setattr__, list __setitem__ raising InjectedFault, an Exception, or InjectedInterrupt, a KeyboardInterrupt subclass); a task whose evaluation raises behaves the same way (ExprTask.run evaluates then writes)",
     "universe with at most one member per nested container (no false ordering cycle: open finding C01-false-cycle does not apply)",
 ]
 BOUNDS = {
@@ -38,7 +38,7 @@ BOUNDS = {
     "thorough": "all managers of <=3 definitions, <=3 faulty updates in a row, both builds",
 }
 OUTSIDE = "faults inside index maintenance (register/unregister) - set_value touches the indices only before the first write; FunctionTask actions raising (same run_tasks loop)"
-REQUIRED_CLASSES = ["fault_injected", "fault_at_first_write", "fault_mid_update", "repeat_ok", "second_fault"]
+REQUIRED_CLASSES = ["fault_injected", "fault_at_first_write", "fault_mid_update", "repeat_ok", "second_fault", "interrupt_fault"]
 PROFILE_CASES = 4
 TASKS_PER_CHILD = 30
 LOCS = ["a", "b", "c", "n.x", "l0"]
@@ -48,7 +48,16 @@ class InjectedFault(Exception):
     pass
 
 
+class InjectedInterrupt(KeyboardInterrupt):
+    """a fault that is not an Exception subclass (an interrupt arriving during the update)"""
+
+
+FAULTS = (InjectedFault, InjectedInterrupt)
+
+
 class FaultEnv:
+    exc = InjectedFault
+
     def __init__(self):
         self.count = 0
         self.fail_at = None
@@ -58,7 +67,7 @@ class FaultEnv:
         k = self.count
         self.count += 1
         if self.fail_at is not None and k == self.fail_at:
-            raise InjectedFault(f"write #{k} ({what})")
+            raise self.exc(f"write #{k} ({what})")
         self.log.append(what)
 
     def arm(self, k):
@@ -139,6 +148,9 @@ def target_loc(task):
 
 def run_case(ex, case):
     st = FState(ex, case["build"])
+    if case.get("fault") == "interrupt":
+        st.env.exc = InjectedInterrupt
+        note(ex, "interrupt_fault")
     for (t, dsc) in case["defs"]:
         st.apply(("expr", t, c01._tup(dsc)))
     if not oracle_ok(ex, st, "before any fault"):
@@ -178,7 +190,7 @@ def run_case(ex, case):
             U.assign(st.r, L, U.build(new_def, st.r, st.fr) if exprmode else v)
             ex.fail(f"fault at write {k} of the update of {L} did not reach the caller", {"history": list(st.hist), "plan": [str(t) for t in plan]})
             return
-        except InjectedFault:
+        except FAULTS:
             pass
         except (Abort, Inconclusive):
             raise
@@ -294,4 +306,6 @@ def cases(tier):
                     out.append({"build": b, "defs": defs, "loc": L, "maxfaults": 2 if tier == "quick" else 3})
                     if k == 1 or (k == 2 and len(out) % 5 == 0):
                         out.append({"build": b, "defs": defs, "loc": L, "maxfaults": 2, "assign_expr": True})
+                    if k == 1 or (k == 2 and len(out) % 3 == 0):
+                        out.append({"build": b, "defs": defs, "loc": L, "maxfaults": 2, "fault": "interrupt"})
     return out
